@@ -174,6 +174,7 @@ impl Director {
                 eff,
                 phase: Phase::NotPolled,
                 started_at: None,
+                std_created: std::time::Instant::now(),
                 call_started_at: None,
                 last_fail: None,
                 script: script.into(),
@@ -387,8 +388,29 @@ impl Director {
                         (Some(r), prev) => {
                             if r < m.created || prev.map(|p| r < p).unwrap_or(false) {
                                 w.viol(&["C13"], "recycled_backwards", format!("last-recycled instant of obj{} moved backwards", id));
+                            } else if r < w.tasks[t].std_created {
+                                // the recycle of this very hand-out happened inside this get() call
+                                let older = w.tasks[t].std_created.duration_since(r);
+                                w.viol(
+                                    &["C13"],
+                                    "recycled_stale",
+                                    format!("obj{} handed out for the {}. time reports a last-recycled instant {:?} older than the get() call that recycled it", id, handouts, older),
+                                );
                             }
                         }
+                    }
+                }
+                // the accessors say what the fields say
+                {
+                    let t0 = std::time::Instant::now();
+                    let (age, last_used) = (m.age(), m.last_used());
+                    let t1 = std::time::Instant::now();
+                    let base = m.recycled.unwrap_or(m.created);
+                    if age < t0.saturating_duration_since(m.created) || age > t1.saturating_duration_since(m.created) {
+                        w.viol(&["C13"], "age_accessor", format!("obj{}: age() = {:?} but it was created between {:?} and {:?} ago", id, age, t0.saturating_duration_since(m.created), t1.saturating_duration_since(m.created)));
+                    }
+                    if last_used < t0.saturating_duration_since(base) || last_used > t1.saturating_duration_since(base) {
+                        w.viol(&["C13"], "last_used_accessor", format!("obj{}: last_used() = {:?} but it was last recycled (or created) between {:?} and {:?} ago", id, last_used, t0.saturating_duration_since(base), t1.saturating_duration_since(base)));
                     }
                 }
                 let o = &mut w.objs[id as usize];
